@@ -152,9 +152,11 @@ class _read_nbits:
     ensures = COMMON_POST + [
         "result == bitsval(old(tape(state)), old(dpos(state)), n)",
         "dpos(state) == old(dpos(state)) + (n if n > 0 else 0)",
+        "result >= 0",
     ]
     invariants = {
         1: [
+            "val >= 0",
             "dinv(state)",
             "tape(state) == old(tape(state))",
             'flen(state["_file"]) == old(flen(state["_file"]))',
@@ -182,6 +184,7 @@ class _read_uint_lit:
     ensures = COMMON_POST + [
         "result == bitsval(old(tape(state)), old(dpos(state)), 8 * n)",
         "dpos(state) == old(dpos(state)) + (8 * n if n > 0 else 0)",
+        "result >= 0",
     ]
 
 
